@@ -49,12 +49,28 @@ def _ref_steps(seqs: Dict[str, List[Any]], by_pos: bool, broadcast: bool):
 
 
 # --------------------------------------------------------------------------------------------- U1
-def _make_u1(maxlen: int):
-    def u1(a: List[int], b: List[int], c: List[int], nvars: int, by_pos: bool, broadcast: bool):
+def _make_u1(param):
+    if isinstance(param, (list, tuple)):
+        maxlen, fshape, fnvars = param
+
+        def u1s(a: List[int], b: List[int], c: List[int], by_pos: bool, broadcast: bool):
+            return _make_u1(maxlen)(a, b, c, fnvars, by_pos, broadcast, fshape)
+
+        return u1s
+    maxlen = param
+
+    def u1(a: List[int], b: List[int], c: List[int], nvars: int, by_pos: bool, broadcast: bool, shape: int = 0):
         from semantiva.data_processors.parametric_sweep_factory import _iterate_sweep
         from vt.engine import assume
 
-        assume(1 <= nvars <= 3)
+        assume(1 <= nvars <= 3 and 0 <= shape <= 2)
+        # sweep values need not be scalars: a value may itself be a (equal-length) list or tuple
+        # (for those shapes only the LENGTHS stay symbolic: the values are distinct concrete containers)
+        if shape != 0:
+            assume(len(a) <= maxlen and len(b) <= maxlen and len(c) <= maxlen)
+            la, lb, lc = (next(i for i in range(0, maxlen + 1) if len(x) == i) for x in (a, b, c))  # fork on the lengths -> concrete ints
+            mk = (lambda u, v: [u, v]) if shape == 1 else (lambda u, v: (u, v))
+            a, b, c = [mk(j, 100 + j) for j in range(la)], [mk(10 + j, 110 + j) for j in range(lb)], [mk(20 + j, 120 + j) for j in range(lc)]
         assume(1 <= len(a) <= maxlen and 1 <= len(b) <= maxlen and 1 <= len(c) <= maxlen)
         # insertion order deliberately not sorted: combinatorial order must follow sorted names
         seqs: Dict[str, List[int]] = {"t": list(a)}
@@ -82,8 +98,8 @@ def _make_u1(maxlen: int):
     return u1
 
 
-def _replay_u1(maxlen, a):
-    v = _make_u1(maxlen)(**a)
+def _replay_u1(param, a):
+    v = _make_u1(param)(**a)
     if v is True:
         return {"reproduced": False, "fingerprint": "", "detail": "documented order on the concrete input"}
     return {"reproduced": True, "fingerprint": v.fingerprint, "detail": v.detail}
@@ -349,7 +365,7 @@ def obligations(tier: str) -> List[Ob]:
     R = C01._replay_simple
     p1_params = [(k, e, 2 if not big else 3) for k in ("op", "src", "probe") for e in range(len(EXPRS))]
     return [
-        Ob("C03.U1", _make_u1, _replay_u1, params=[ml], budget=300 if not big else 1500, bound="1..3 variables, each a symbolic list of length 1..%d with symbolic elements; mode and broadcast symbolic; whole step list compared; inputs unmodified" % ml, targets=["semantiva/data_processors/parametric_sweep_factory.py:_iterate_sweep"]),
+        Ob("C03.U1", _make_u1, _replay_u1, params=[(ml, sh, nv) for sh in (0, 1, 2) for nv in (1, 2, 3)], budget=300 if not big else 1500, bound="1..3 variables, each a symbolic list of length 1..%d with symbolic elements (scalars, 2-lists or 2-tuples by a symbolic selector); mode and broadcast symbolic; whole step list compared; inputs unmodified" % ml, targets=["semantiva/data_processors/parametric_sweep_factory.py:_iterate_sweep"]),
         Ob("C03.U2", lambda _p: _u2, R(_u2), budget=240, bound="SequenceSpec/FromContext with symbolic lists (len<=3; missing key, empty, string); RangeSpec linear over 8 integer-grid cases vs closed form", targets=["semantiva/data_processors/parametric_sweep_factory.py:_materialize_sequences"]),
         Ob("C03.U4", lambda _p: _u4, R(_u4), budget=120, bound="8 variable-spec shapes (list, [lo,hi], {lo,hi,steps,endpoint}, {values}, {from_context}, 3 illegal) with symbolic numbers", targets=["semantiva/pipeline/node_preprocess.py:_convert_var_specs"]),
         Ob("C03.P1", _make_p1, _replay_p1, params=p1_params, budget=600 if not big else 1800, per_path=60,
